@@ -346,6 +346,33 @@ def rule_S3(ctx, rid='S3'):
                    'the smaller cluster receives the n_points_min most likely points' if ok else
                    'the smaller cluster is topped up with `%s` points, fewer than n_points_min'
                    % unparse(up))
+    # a top-up that selects by VALUE instead of by rank: `labels = np.where(p >= p_min, ..)` /
+    # `labels[p >= p_min] = label` gives the smaller cluster every point tied with the cut -
+    # possibly more than n_points_min, and the other cluster correspondingly fewer
+    for st in walk_no_nested(f.node):
+        if not isinstance(st, ast.Assign):
+            continue
+        t0 = st.targets[0]
+        by_value = None
+        if isinstance(st.value, ast.Call) and dotted(st.value.func) == 'np.where' and \
+                st.value.args and isinstance(st.value.args[0], ast.Compare) and \
+                isinstance(t0, (ast.Name, ast.Subscript)) and 'label' in unparse(t0):
+            by_value = st.value.args[0]
+        elif isinstance(t0, ast.Subscript) and isinstance(t0.slice, ast.Compare) and \
+                'label' in unparse(t0.value):
+            by_value = t0.slice
+        if by_value is None:
+            continue
+        cfg_ = cfg_of(f)
+        if not cfg_.has(st) or not any('n_points_min' in tx
+                                       for _, tx, _ in cfg_.facts(cfg_.node_of(st).id)):
+            continue
+        n += 1
+        ctx.ob(rid, 'Union.split:top-up-size', False, f.where(st),
+               'the smaller cluster is topped up with every point satisfying `%s`, a cut by '
+               'value: points tied with the cut all go to that cluster, which then holds more '
+               'than n_points_min points while the other one is left with fewer than '
+               'n_points_min (select by rank: `order[:n_points_min]`)' % unparse(by_value)[:50])
     # ... and the OTHER cluster keeps its minimum as well.  The top-up adds the n_points_min most
     # likely points to the smaller cluster without removing its former members, so that cluster
     # can grow to 2 n_points_min - 1 and the larger one shrink to N - 2 n_points_min + 1.  With
